@@ -77,6 +77,22 @@ static int64_t zigzag_decode64(uint64_t n) {
     return (int64_t)((n >> 1) ^ (~(n & 1) + 1));
 }
 
+/**
+ * Unpack `count` values of `bit_width` bits (1..64) each from an LSB-first
+ * bit-packed stream (Parquet bit-packing, values may straddle byte boundaries).
+ */
+static void bitunpack_wide(const uint8_t* input, int count, int bit_width,
+                           uint64_t* values) {
+    size_t bit_pos = 0;
+    for (int i = 0; i < count; i++) {
+        uint64_t v = 0;
+        for (int b = 0; b < bit_width; b++, bit_pos++) {
+            v |= (uint64_t)((input[bit_pos >> 3] >> (bit_pos & 7)) & 1) << b;
+        }
+        values[i] = v;
+    }
+}
+
 /* ============================================================================
  * Delta Decoder Implementation
  * ============================================================================
@@ -189,22 +205,25 @@ static carquet_status_t delta_decoder_read_mini_block(delta_decoder_t* dec) {
         }
 
         dec->pos += packed_size;
-    } else {
-        /* Unpack 64-bit values (stored as little-endian bytes) */
-        int bytes_per_value = (bit_width + 7) / 8;
-        size_t packed_size = mini_block_size * bytes_per_value;
+    } else if (bit_width <= 64) {
+        /* Unpack bit-packed deltas (33..64 bits) */
+        size_t packed_size = ((size_t)mini_block_size * bit_width + 7) / 8;
         if (dec->pos + packed_size > dec->size) {
             return CARQUET_ERROR_DECODE;
         }
 
+        uint64_t unpacked[DELTA_MINI_BLOCK_SIZE];
+        bitunpack_wide(dec->data + dec->pos, mini_block_size, bit_width, unpacked);
+
         for (int i = 0; i < mini_block_size; i++) {
-            uint64_t val = 0;
-            for (int b = 0; b < bytes_per_value; b++) {
-                val |= (uint64_t)dec->data[dec->pos++] << (b * 8);
-            }
             /* Use unsigned addition to avoid overflow UB */
-            dec->mini_block_values[i] = (int64_t)((uint64_t)dec->min_delta + val);
+            dec->mini_block_values[i] = (int64_t)((uint64_t)dec->min_delta + unpacked[i]);
         }
+
+        dec->pos += packed_size;
+    } else {
+        /* No value type is wider than 64 bits */
+        return CARQUET_ERROR_DECODE;
     }
 
     dec->current_mini_block++;
@@ -348,6 +367,25 @@ static int bit_width_required(uint64_t value) {
     return width;
 }
 
+/**
+ * Pack `count` values of `bit_width` bits (1..64) each into an LSB-first
+ * bit-packed stream (Parquet bit-packing). Values must fit in `bit_width` bits.
+ * Returns the number of bytes written: ceil(count * bit_width / 8).
+ */
+static size_t bitpack_wide(const uint64_t* values, int count, int bit_width,
+                           uint8_t* output) {
+    size_t packed_size = ((size_t)count * bit_width + 7) / 8;
+    memset(output, 0, packed_size);
+
+    size_t bit_pos = 0;
+    for (int i = 0; i < count; i++) {
+        for (int b = 0; b < bit_width; b++, bit_pos++) {
+            output[bit_pos >> 3] |= (uint8_t)(((values[i] >> b) & 1) << (bit_pos & 7));
+        }
+    }
+    return packed_size;
+}
+
 static carquet_status_t delta_encoder_init(delta_encoder_t* enc,
                                             uint8_t* data, size_t capacity) {
     memset(enc, 0, sizeof(*enc));
@@ -388,14 +426,8 @@ static carquet_status_t delta_encoder_flush_block(delta_encoder_t* enc) {
 
         bit_widths[mb] = (uint8_t)bit_width_required(max_val);
         if (bit_widths[mb] > 0) {
-            /* Calculate bytes needed for this mini-block */
-            if (bit_widths[mb] <= 32) {
-                /* Bitpacked: mini_block_size values * bit_width / 8 */
-                packed_bytes_needed += (size_t)mini_block_size * bit_widths[mb] / 8;
-            } else {
-                /* Byte-by-byte: mini_block_size values * bytes_per_value */
-                packed_bytes_needed += (size_t)mini_block_size * ((bit_widths[mb] + 7) / 8);
-            }
+            /* Bytes needed for this mini-block: mini_block_size values * bit_width / 8 */
+            packed_bytes_needed += (size_t)mini_block_size * bit_widths[mb] / 8;
         }
     }
 
@@ -434,21 +466,18 @@ static carquet_status_t delta_encoder_flush_block(delta_encoder_t* enc) {
             enc->pos += carquet_bitpack_32(to_pack, mini_block_size,
                                             bit_widths[mb], enc->data + enc->pos);
         } else {
-            /* For bit widths > 32, pack directly as bytes (little-endian) */
-            int bytes_per_value = (bit_widths[mb] + 7) / 8;
+            /* Bit widths 33..64: bit-pack the full 64-bit adjusted deltas */
+            uint64_t to_pack[DELTA_MINI_BLOCK_SIZE];
             for (int i = start; i < end; i++) {
                 /* Use unsigned subtraction to avoid overflow UB */
-                uint64_t adjusted = (uint64_t)enc->deltas[i] - (uint64_t)min_delta;
-                for (int b = 0; b < bytes_per_value; b++) {
-                    enc->data[enc->pos++] = (uint8_t)(adjusted >> (b * 8));
-                }
+                to_pack[i - start] = (uint64_t)enc->deltas[i] - (uint64_t)min_delta;
             }
             /* Pad with zeros */
             for (int i = end - start; i < mini_block_size; i++) {
-                for (int b = 0; b < bytes_per_value; b++) {
-                    enc->data[enc->pos++] = 0;
-                }
+                to_pack[i] = 0;
             }
+            enc->pos += bitpack_wide(to_pack, mini_block_size,
+                                     bit_widths[mb], enc->data + enc->pos);
         }
     }
 
